@@ -178,9 +178,14 @@ pub fn display_ident_part(f: &mut std::fmt::Formatter, s: &str) -> Result<(), st
     fn forbidden_subsequent(c: char) -> bool {
         !(c.is_ascii_alphabetic() || c.is_ascii_digit() || c == '_')
     }
+    // keywords of the lexer: written bare they would not lex as an identifier again
+    const KEYWORDS: [&str; 10] = [
+        "let", "into", "case", "prql", "type", "module", "internal", "func", "import", "enum",
+    ];
     let needs_escape = s.is_empty()
         || s.starts_with(forbidden_start)
-        || (s.len() > 1 && s.chars().skip(1).any(forbidden_subsequent));
+        || (s.len() > 1 && s.chars().skip(1).any(forbidden_subsequent))
+        || KEYWORDS.contains(&s);
 
     if needs_escape {
         write!(f, "`{s}`")
